@@ -65,6 +65,7 @@ class IcapTx:
     def __init__(self):
         self.id = next(IcapTx._seq)
         self.t = tick()
+        self.t_wall = time.time()
         self.method = None
         self.uri = None
         self.service = None
@@ -87,6 +88,8 @@ class IcapTx:
         self.fault_fired = None
         self.first_response_byte_sent = False
         self.cid = None
+        self.wall_request_read = None     # wall clock when the stub had read all it wanted and started to answer
+        self.wall_response_done = None
         self.key = None               # scenario key assigned by plan_for
 
     def header(self, name, default=None):
@@ -110,20 +113,24 @@ def serialize_icap_200(adapted, chunks=None, istag=b'"verif-1"', conn_close=Fals
     else:
         enc = b"%s-hdr=0, %s-body=%d" % (kind.encode(), kind.encode(), len(head))
     icap = b"ICAP/1.0 200 OK\r\nISTag: " + istag + b"\r\nServer: verif-icap\r\n" + (b"Connection: close\r\n" if conn_close else b"") + b"Encapsulated: " + enc + b"\r\n\r\n"
-    wire = b""
+    parts = []
     last = b""
     if body is not None:
         pos = 0
         sizes = list(chunks or [])
+        if len(body) > 8192:
+            sizes = [max(sz, 512) for sz in sizes]      # keep the number of chunks (and the stub's CPU time) bounded
         i = 0
         while pos < len(body):
             sz = sizes[i % len(sizes)] if sizes else len(body)
             sz = max(1, min(sz, len(body) - pos))
-            wire += b"%x\r\n" % sz + body[pos:pos + sz] + b"\r\n"
+            parts.append(b"%x\r\n" % sz)
+            parts.append(body[pos:pos + sz])
+            parts.append(b"\r\n")
             pos += sz
             i += 1
         last = b"0\r\n\r\n"
-    return icap, head, wire, last
+    return icap, head, b"".join(parts), last
 
 
 class IcapServer:
@@ -181,6 +188,14 @@ class IcapServer:
         elif f["kind"] == "rst":
             self._rst(c)
         else:
+            # orderly close: FIN, then drain what the peer still sends (closing with unread data would turn into a RST)
+            try:
+                c.shutdown(socket.SHUT_WR)
+                c.settimeout(3)
+                while c.recv(65536):
+                    pass
+            except OSError:
+                pass
             c.close()
 
     def _send(self, c, tx, data, splits=None, delay=0.0):
@@ -307,6 +322,7 @@ class IcapServer:
                     self._do_fault(c, tx, f, "after_all")
                     return
                 # ---- respond
+                tx.wall_request_read = time.time()
                 action = plan.get("action", "204")
                 if action == "204" and not (in_preview or tx.allow204):
                     action = "200"          # a 204 here would violate RFC 3507: answer with the adapted message instead
@@ -347,6 +363,7 @@ class IcapServer:
                         tx.effective = "200-cut:" + f["at"]
                         return
                     self._send(c, tx, full, plan.get("splits"), plan.get("delay", 0.0))
+                tx.wall_response_done = time.time()
                 tx.events.append((tick(), "responded", tx.effective))
                 if close_after:
                     try:
